@@ -7,6 +7,7 @@ import Mathlib.Tactic.Ring
 import Mathlib.Tactic.FieldSimp
 import Mathlib.Tactic.Linarith
 import Mathlib.Tactic.NormNum
+import Mathlib.Tactic.IntervalCases
 
 /-!
   Helper lemmas shared by the property files: the bridge from the model's recursive `sumTo`
